@@ -144,4 +144,6 @@ def obligations(tier):
     for j in sorted(SP.JOINS3):
         obls.append(_obl("B/multi3/%s/k=%d" % (j, 3 if q else 4),
                          {"template": "multi", "join": j, "nsrc": 3, "small": False}, 3 if q else 4, B, nsrc=3))
+    from harness import c10_async
+    obls.extend(c10_async.obligations(tier))
     return obls
